@@ -134,9 +134,14 @@ def deriv_indices(tdim: int, nderiv: int):
     return out
 
 
-def tabulate_raw(sub, points, nderiv: int, tdim: int):
-    """[deriv][q][node][vc] as [num, den] pairs, for one raw sub-element at rational points."""
+def tabulate_raw(sub, points, nderiv: int, tdim: int, unused: bool = False):
+    """[deriv][q][node][vc] as [num, den] pairs, for one raw sub-element at rational points.
+    unused: the integrand evaluated at these points does not refer to this element (a quadrature element that
+    belongs to another integral of the same kernel): a table of zeros of the right shape."""
     npts = len(points)
+    if unused and sub["kind"] == "quadrature":
+        nn = int(np.asarray(sub["raw"]._points).shape[0])
+        return [[[[[0, 1]] for _ in range(nn)] for _ in range(npts)] for _ in range(len(deriv_indices(tdim, nderiv)))]
     pts = np.array([[float(c) for c in p] for p in points], dtype=np.float64).reshape(npts, tdim)
     raw = sub["raw"]
     idxs = deriv_indices(tdim, nderiv)
